@@ -7,24 +7,24 @@ P=$1; K=$2; DEST=$3; RX=$4
 WT=/tmp/wt/$P; M=$WT/_mut/m$K
 cd $WT || exit 2
 git checkout -q -- . ; rm -f $DEST/*_demo_test.go
-DEMO=$(ls $M/*_test.go | head -1)
+DEMO=$(ls $M/*demo_test.go | head -1); ALLT=$(ls $M/*_test.go)
 res() { echo "$P-m$K: $*"; }
 git apply --check $M/patch.diff || { res "patch does not apply"; exit 1; }
 git -C /repo apply --check $M/patch.diff 2>/dev/null && ONHEAD=yes || ONHEAD=no
 # without patch: demo passes
-cp $DEMO $DEST/
+cp $ALLT $DEST/
 go test -p 4 -vet=off -count=1 -run "$RX" ./$DEST/ > $M/confirm_pristine.log 2>&1 && PR=pass || PR=fail
 git apply $M/patch.diff
 go build ./... > $M/confirm_build.log 2>&1 && B=ok || B=fail
 go test -p 4 -vet=off -count=1 -run "$RX" ./$DEST/ > $M/confirm_mutant.log 2>&1 && MU=pass || MU=fail
-rm -f $DEST/$(basename $DEMO)
+for f in $ALLT; do rm -f $DEST/$(basename $f); done
 DIRS=$(grep '^+++ b/' $M/patch.diff | sed 's#+++ b/##' | xargs -n1 dirname | sort -u | sed 's#^#./#; s#$#/...#' | tr '\n' ' ')
 go test -p 4 -vet=off -count=1 $DIRS > $M/confirm_existing.log 2>&1 && EX=pass || EX=fail
 git checkout -q -- .
 res "applies_on_head=$ONHEAD build=$B demo_pristine=$PR demo_mutant=$MU existing_tests($DIRS)=$EX"
 if [ $B = ok ] && [ $PR = pass ] && [ $MU = fail ] && [ $EX = pass ]; then
   D=/verif/seeded/$P-m$K; mkdir -p $D
-  cp $M/patch.diff $D/; cp $DEMO $D/; cp $M/README.md $D/README.md
+  cp $M/patch.diff $D/; cp $ALLT $D/; cp $M/README.md $D/README.md
   cat > $D/meta.json <<EOM
 {"property": "$P", "id": "$P-m$K", "demo": "$(basename $DEMO)", "demo_dir": "$DEST", "demo_run": "go test -vet=off -count=1 -run '$RX' ./$DEST/",
  "confirmed": {"patch_applies_on_pinned": true, "patch_applies_on_repo_head": "$ONHEAD", "go_build": "$B", "demo_on_pristine": "$PR", "demo_with_patch": "$MU", "existing_tests_with_patch": "$EX", "existing_tests_run": "$DIRS"},
